@@ -27,6 +27,34 @@ type replyModel struct {
 	// extraMust are callees on other types that count as "replied" for T
 	// (e.g. the dispatcher when analysing processRequest).
 	extraMust map[*ssa.Function]bool
+	// root is the function whose flow is being computed (set by flow()).
+	root *ssa.Function
+	// exemptRet, when set, names the documented reason for which a return of an
+	// inlined private helper may leave the request unanswered (state No); the
+	// state then continues as if replied and the reason is recorded in Exempted.
+	exemptRet func(*ssa.Return) string
+	Exempted  map[*ssa.Return]string
+}
+
+// The flow states are base | tag<<1: base is the replied flag (stNo/stYes),
+// tag remembers the constant bool a just-inlined private helper returned
+// (1 = true, 2 = false) until the caller branches on the call's value.
+const (
+	tagNone  = 0
+	tagTrue  = 1
+	tagFalse = 2
+)
+
+// inlineable: private helpers and local closures of the root package are
+// analysed in the context of their callers instead of through may/must summaries.
+func (m *replyModel) inlineable(cal *ssa.Function) bool {
+	if cal == nil || len(cal.Blocks) == 0 || cal.Pkg == nil || (m.root != nil && cal.Pkg != m.root.Pkg) {
+		return false
+	}
+	if cal.Parent() != nil {
+		return true
+	}
+	return m.p.IsPrivateHelper(cal)
 }
 
 func isPtrTo(t types.Type, name string) bool {
@@ -52,7 +80,40 @@ func (m *replyModel) takesT(c ssa.CallInstruction) bool {
 	return false
 }
 
-func (m *replyModel) transfer(in ssa.Instruction, s int) core.StateSet {
+func (m *replyModel) transfer(in ssa.Instruction, s0 int) core.StateSet {
+	base, tag := s0&1, s0>>1
+	res := m.baseTransfer(in, base)
+	newTag := tagNone
+	switch x := in.(type) {
+	case *ssa.If, *ssa.UnOp, *ssa.DebugRef, *ssa.Phi, *ssa.BinOp, *ssa.Jump:
+		newTag = tag // transparent between the helper's return and the caller's branch on it
+	case *ssa.Return:
+		if m.root != nil && x.Parent() != m.root {
+			if base == stNo && m.exemptRet != nil {
+				if why := m.exemptRet(x); why != "" {
+					res = core.StateSet(0).Add(stYes)
+					if m.Exempted != nil {
+						m.Exempted[x] = why
+					}
+				}
+			}
+			if len(x.Results) == 1 {
+				if isConstBool(x.Results[0], true) {
+					newTag = tagTrue
+				} else if isConstBool(x.Results[0], false) {
+					newTag = tagFalse
+				}
+			}
+		}
+	}
+	var out core.StateSet
+	for _, b := range res.List() {
+		out = out.Add(b | newTag<<1)
+	}
+	return out
+}
+
+func (m *replyModel) baseTransfer(in ssa.Instruction, s int) core.StateSet {
 	var one core.StateSet
 	one = one.Add(s)
 	switch in := in.(type) {
@@ -71,6 +132,9 @@ func (m *replyModel) transfer(in ssa.Instruction, s int) core.StateSet {
 		if callee := cc.StaticCallee(); callee != nil {
 			if m.extraMust[callee] {
 				return core.StateSet(0).Add(stYes)
+			}
+			if m.inlineable(callee) && callee != m.root {
+				return one // its body is analysed in place by the flow engine
 			}
 			if !m.takesT(in) {
 				return one
@@ -94,7 +158,29 @@ func (m *replyModel) transfer(in ssa.Instruction, s int) core.StateSet {
 	return one
 }
 
-func (m *replyModel) branch(iff *ssa.If, succ int, s int) (int, bool) {
+func (m *replyModel) branch(iff *ssa.If, succ int, s0 int) (int, bool) {
+	s, tag := s0&1, s0>>1
+	// the caller branches on the constant an inlined helper just returned
+	if tag != tagNone {
+		c, neg := iff.Cond, false
+		for {
+			u, ok := c.(*ssa.UnOp)
+			if !ok || u.Op != token.NOT {
+				break
+			}
+			c, neg = u.X, !neg
+		}
+		if call, ok := c.(*ssa.Call); ok && m.inlineable(call.Common().StaticCallee()) {
+			truth := (succ == 0) != neg
+			if (tag == tagTrue) != truth {
+				return s, false
+			}
+		}
+	}
+	// no panic in flight: the recover()==nil edge of a recover function is judged by R1, not here
+	if m.root != nil && isRecoverNilEdge(edgeCond{iff, succ}) {
+		return stYes, true
+	}
 	ci := core.Cond(iff.Cond)
 	if ci.Kind == "boolfield" && ci.Field == m.flag {
 		truth := succ == 0
@@ -113,8 +199,30 @@ func (m *replyModel) branch(iff *ssa.If, succ int, s int) (int, bool) {
 }
 
 func (m *replyModel) flow(fn *ssa.Function, entry core.StateSet) *core.FlowResult {
-	f := &core.Flow{Fn: fn, Entry: entry, Transfer: m.transfer, Branch: m.branch}
-	return f.Run()
+	saved := m.root
+	m.root = fn
+	f := &core.Flow{Fn: fn, Entry: entry, Transfer: m.transfer, Branch: m.branch, Inline: func(cal *ssa.Function) bool { return m.inlineable(cal) }}
+	res := f.Run()
+	m.root = saved
+	// strip the return-value tags: consumers see {No,Yes} only
+	strip := func(st core.StateSet) core.StateSet {
+		var o core.StateSet
+		for _, x := range st.List() {
+			o = o.Add(x & 1)
+		}
+		return o
+	}
+	for k, v := range res.Before {
+		res.Before[k] = strip(v)
+	}
+	for k, v := range res.After {
+		res.After[k] = strip(v)
+	}
+	for k, v := range res.In {
+		res.In[k] = strip(v)
+	}
+	res.Exit = strip(res.Exit)
+	return res
 }
 
 // storesFlag reports whether fn directly stores true to the flag.
